@@ -170,6 +170,7 @@ func overlaps(notes []vsched.Note) map[string]bool {
 }
 
 var lastObs *obs
+var exploreNoSleep, exploreNoCache bool
 
 func bodyOf(h *harness) func() {
 	return func() {
@@ -185,7 +186,7 @@ func exploreHarness(h *harness, bound int, deadline time.Time, maxExecs int64) *
 	traces := map[[2]uint64]bool{}
 	nontriv := map[[2]uint64]bool{}
 	fails := map[string]*failing{}
-	opts := vsched.Options{Bound: bound, Horizon: 4000, Deadline: deadline, MaxExecs: maxExecs, LowPriority: lowPriority}
+	opts := vsched.Options{Bound: bound, Horizon: 4000, Deadline: deadline, MaxExecs: maxExecs, LowPriority: lowPriority, NoSleep: exploreNoSleep, NoCache: exploreNoCache}
 	var sampleChoices [][]vsched.Choice
 	body := bodyOf(h)
 	res.Stats = vsched.Explore(body, opts, func(e *vsched.Execution) bool {
@@ -212,7 +213,22 @@ func exploreHarness(h *harness, bound int, deadline time.Time, maxExecs int64) *
 		}
 		if o != nil {
 			if e.Outcome == vsched.Completed {
-				res.Classes[o.class()]++
+				cl := o.class()
+				if os.Getenv("VERIF_C32_PROFILE") != "" {
+					var ks []string
+					for k, v := range o.counts {
+						ks = append(ks, fmt.Sprintf("%s=%d", k, v))
+					}
+					sort.Strings(ks)
+					cl += " " + strings.Join(ks, ",") + fmt.Sprintf(" blocked=%d goroutines=%d", len(e.Blocked), e.Goroutines)
+				}
+				if m := os.Getenv("VERIF_C32_MATCH"); m != "" && strings.Contains(cl, m) && res.Classes[cl] == 0 {
+					r := vsched.Replay(body, e.Choices, opts)
+					for _, l := range traceLines(r, 0) {
+						fmt.Println(l)
+					}
+				}
+				res.Classes[cl]++
 			}
 			for k, v := range o.counts {
 				res.Counts[k] += int64(v)
